@@ -185,6 +185,8 @@ def check_filter(ta, tb, tree):
 # ---------------------------------------------------------------- deep: few ACL pairs x all trees
 DEEP_PAIRS = [(0b000011, 0b010000), (0b000111, 0b001000), (0b101010, 0b010101), (0b111111, 0b000000),
               (0b000010 + 128, 0b010000), (0b001001 + 64, 0b100110), (0b110010, 0b000110 + 128), (0b100100, 0b011011 + 192)]
+if rt.TIER == "quick":
+    DEEP_PAIRS = DEEP_PAIRS[:6]
 NDEEP = len(DEEP_PAIRS) * NTREE
 DLO, DHI = rt.shard_range(NDEEP)
 
@@ -239,7 +241,7 @@ def h_wide(case: int) -> bool:
 
 # ---------------------------------------------------------------- overlapping rules resolved by %prio
 OVERLAP = "b *\n    n * %prio=1\n        c\nb 1\n    ~ %global\n"
-PRIO_SLOTS = [S(["p X", "p Y"], [S(["m"]), S(["dd z"]), S(["q"])]), S(["a"]),
+PRIO_SLOTS = [S(["p X", "p Y"], [S(["m"]), S(["dd z"])]),
               S(["b 1"], [S(["n 1"], [S(["c"]), S(["q"])])]), S(["b 2"], [S(["n 1"], [S(["c"]), S(["q"])])])]
 NPT = count(PRIO_SLOTS)
 NPRIO = 8 * 5 * NPT
